@@ -114,7 +114,7 @@ impl<'a> GeneratorState<'a> {
                 _ => None,
             };
             if let Some(variable) = variable {
-                let v = self.compiler_state.get_variable(variable);
+                let v = self.variable_or_error(variable, pos)?;
                 let split_ports = match v.memory {
                     VariableMemory::Superchip => true,
                     VariableMemory::MemoryOnChip(_) => {
@@ -178,7 +178,7 @@ impl<'a> GeneratorState<'a> {
                     .syntax_error("Unexpected expression type", pos));
             }
             ExprType::Absolute(variable, eight_bits, off) => {
-                let v = self.compiler_state.get_variable(variable);
+                let v = self.variable_or_error(variable, pos)?;
                 signed = v.signed;
                 let offset = if v.memory == VariableMemory::Superchip {
                     match mnemonic {
@@ -293,7 +293,7 @@ impl<'a> GeneratorState<'a> {
                         }
                     }
                     VariableType::CharPtrPtr | VariableType::ShortPtr => {
-                        let v = self.compiler_state.get_variable(variable);
+                        let v = self.variable_or_error(variable, pos)?;
                         let off = offset + if high_byte { v.size as i32 } else { 0 };
                         if off > 0 {
                             dasm_operand = format!("{}+{}", variable, off);
@@ -311,7 +311,7 @@ impl<'a> GeneratorState<'a> {
             }
             ExprType::AbsoluteY(variable) => {
                 let mut indirect = false;
-                let v = self.compiler_state.get_variable(variable);
+                let v = self.variable_or_error(variable, pos)?;
                 signed = v.signed;
                 let offset = if v.memory == VariableMemory::Superchip {
                     match mnemonic {
@@ -454,7 +454,7 @@ impl<'a> GeneratorState<'a> {
                 }
             }
             ExprType::AbsoluteX(variable) => {
-                let v = self.compiler_state.get_variable(variable);
+                let v = self.variable_or_error(variable, pos)?;
                 signed = v.signed;
                 let offset = if v.memory == VariableMemory::Superchip {
                     match mnemonic {
